@@ -57,3 +57,27 @@ PROPS["C11"] = {
         {"pkg": "pkg/trie", "run": "^TestC11Regression$", "all": {"shards": 1, "timeout": 60}},
     ],
 }
+
+PROPS["C12"] = {
+    "title": "State snapshots: reverting restores exactly the earlier visible state",
+    "level": "exploration",
+    "technique": "model-based stateful PBT (rapid) with a snapshot-stack model + differential against a reference StateDB that only receives surviving writes; bounded exhaustive enumeration",
+    "level_text": ("Generated histories of account puts, contract open/set/delete/stage (with inner ContractState snapshot/rollback), "
+                   "nested BlockState snapshots and rollbacks to any earlier snapshot, Update and Commit over 1-3 blocks; every read is compared "
+                   "with the model after every step and every committed block is compared (root, full dump after reopen, raw store contents) "
+                   "with a reference that never saw the reverted writes. Exhaustive over a 10-op alphabet to depth 4 (quick) / 5 (thorough)."),
+    "level_note": "Handles are used as the chain uses them (opened, written and staged inside one step, not held across a rollback); SetCode (writes through to the store immediately) is outside the listed operations and not exercised. Trusted: memorydb.",
+    "rule": ("rapid state machine over {put account, contract tx (1-4 set/del with optional inner ContractState snapshot/rollback) + stage, "
+             "BlockState.Snapshot, Rollback(any earlier snapshot)} x 1-3 committed blocks on 3 accounts x 3 contracts x 4 keys. Non-trivial = "
+             "the history contains a rollback that undoes a contract staged after the snapshot, or a rollback to a non-top snapshot (nesting); "
+             "distinct = distinct op sequence. Exhaustive unit: all sequences of `depth` ops over a 10-op alphabet on top of a committed base block."),
+    "assumptions": ["aergo-lib memorydb is a correct key-value store"],
+    "units": [
+        {"pkg": "state", "run": "^TestC12Snapshots$",
+         "quick": {"checks": 1500, "shards": 8, "timeout": 240},
+         "thorough": {"checks": 25000, "shards": 12, "timeout": 1500}},
+        {"pkg": "state", "run": "^TestC12Exhaustive$",
+         "quick": {"shards": 6, "timeout": 240, "env": {"VERIF_C12_DEPTH": 4}},
+         "thorough": {"shards": 16, "timeout": 1500, "env": {"VERIF_C12_DEPTH": 5}}},
+    ],
+}
